@@ -908,12 +908,11 @@ func compileRegAssignment(context *funcContext, names []string, exprs []ast.Expr
 
 func compileLocalAssignStmt(context *funcContext, stmt *ast.LocalAssignStmt) { // {{{
 	reg := context.RegTop()
-	if len(stmt.Names) == 1 && len(stmt.Exprs) == 1 {
-		if _, ok := stmt.Exprs[0].(*ast.FunctionExpr); ok {
-			context.RegisterLocalVar(stmt.Names[0])
-			compileRegAssignment(context, stmt.Names, stmt.Exprs, reg, len(stmt.Names), sline(stmt))
-			return
-		}
+	if stmt.LocalFunction {
+		// `local function f`: f is declared before its body is compiled, so that the body can refer to it
+		context.RegisterLocalVar(stmt.Names[0])
+		compileRegAssignment(context, stmt.Names, stmt.Exprs, reg, len(stmt.Names), sline(stmt))
+		return
 	}
 
 	compileRegAssignment(context, stmt.Names, stmt.Exprs, reg, len(stmt.Names), sline(stmt))
